@@ -6,12 +6,17 @@
       C19_i64_literal         eval_i64 literal: exactly the integer, or an error when it exceeds i64
       C19_number_literal      Integer iff no point (and it fits), Float of the same rounding otherwise
       C19_complex_literal     the i suffix moves the value to the imaginary part
-    eval_decimal's literal is rust_decimal's from_str (an oracle); the print / re-read round trip relies
+      C19_decimal_literal     eval_decimal literal with at most 28 digits in all: coefficient = the digit string read as an
+                              integer, scale = number of digits after the point -- exactly the written decimal, no f64
+                              round trip, and a valid 96-bit coefficient (the written-out exact path of
+                              Decimal::from_str, validated bit for bit by the correspondence); longer literals are
+                              rust_decimal's from_str (an oracle)
+    The print / re-read round trip relies
     on std Display printing a shape this grammar reads and on std's own round-trip guarantee: both are
     exercised by the correspondence (format!("{}", v) of pool and random values fed back in). *)
 From Coq Require Import ZArith NArith Reals List Bool.
 From Flocq Require Import Core.Core IEEE754.BinarySingleNaN.
-From SC Require Import Base.Res Base.F64 Base.RustInt Base.Num Base.Oracle Lang.Lexer Lang.Literal Proofs.LiteralFacts.
+From SC Require Import Base.Res Base.F64 Base.RustInt Base.Dec Base.Num Base.Oracle Lang.Lexer Lang.Literal Proofs.LiteralFacts.
 Import ListNotations.
 
 Theorem C19_f64_literal_text :
@@ -58,6 +63,19 @@ Theorem C19_number_literal :
 Proof. reflexivity. Qed.
 Print Assumptions C19_number_literal.
 
+Theorem C19_decimal_literal :
+  forall (D : declib) ip fp im,
+    ip <> [] -> forallb is_digit ip = true -> forallb is_digit fp = true -> (length ip + length fp <= 28)%nat ->
+    conv_dec D (LNum ip im) = Some {| d_neg := false; d_coef := digits_val 0%N ip; d_scale := 0%N |} /\
+    conv_dec D (LNum (ip ++ ch_dot :: fp) im) =
+      Some {| d_neg := false; d_coef := digits_val 0%N (ip ++ fp); d_scale := N.of_nat (length fp) |} /\
+    (digits_val 0%N (ip ++ fp) < 2 ^ 96)%N.
+Proof.
+  intros D ip fp im H1 H2 H3 H4. destruct (parse_dec_exact_spec ip fp H1 H2 H3 H4) as [A [B C]].
+  unfold conv_dec, parse_dec. rewrite A, B. repeat split. exact C.
+Qed.
+Print Assumptions C19_decimal_literal.
+
 Theorem C19_complex_literal :
   forall t v, parse_f64 t = Some v ->
     conv_cpx (LNum t true) = Some (fzero, v) /\ conv_cpx (LNum t false) = Some (v, fzero) /\ conv_cpx LImagUnit = Some (fzero, fone).
@@ -71,5 +89,6 @@ Example C19_examples :
   option_map bits_of_f64 (parse_f64 [57;48;48;55;49;57;57;50;53;52;55;52;48;57;57;51]%N) = Some 0x4340000000000000%Z /\
   option_map bits_of_f64 (parse_f64 (repeat 57%N 400)) = Some 0x7FF0000000000000%Z /\
   parse_i64 [57;50;50;51;51;55;50;48;51;54;56;53;52;55;55;53;56;48;56]%N = None /\
-  parse_i64 [57;50;50;51;51;55;50;48;51;54;56;53;52;55;55;53;56;48;55]%N = Some (2 ^ 63 - 1)%Z.
+  parse_i64 [57;50;50;51;51;55;50;48;51;54;56;53;52;55;55;53;56;48;55]%N = Some (2 ^ 63 - 1)%Z /\
+  parse_dec_exact [49; 46; 49; 48]%N = Some {| d_neg := false; d_coef := 110%N; d_scale := 2%N |}.
 Proof. repeat split; vm_compute; reflexivity. Qed.
